@@ -15,7 +15,7 @@
  *   P <k> prepare | finish | ftrig
  *   P <k> rtd <ok> <failkind> <np> {<ip> <payload>}*np <ownip> <ownpayload> <ownwritten> <exit>
  *   K <k>
- *   R read | R flush <k> <i> | R stop | R remaining
+ *   R read | R flush <k> <i> | R flushall | R stop | R remaining
  *   W <w> pick | write | splice
  *   SEGVSELF <ncyg> <sig>      enter ncyg functions through __cyg_profile_func_enter, then raise(sig)
  *   STEPKILL <k> <nth> rtd …   (C04) run the rtd op in a forked, ptrace-single-stepped copy and stop it
@@ -719,6 +719,29 @@ int main(void)
 				}
 				shm_remove(b);
 				record_mmap(b);
+				dump_state("ok");
+			}
+			else if (!strcmp(tok[1], "flushall")) {
+				/* flush_shmem_list: every entry, in order (entries of threads that have not stopped,
+				 * or with messages still in the pipe, are left alone as in the model) */
+				struct wlist todo = shmlist;
+				int j;
+
+				for (j = 0; j < todo.n; j++) {
+					struct wbuf b = todo.b[j];
+					struct worker *w = &workers[b.k];
+					int i, inpipe = 0;
+
+					for (i = 0; i < npipe; i++)
+						if ((pipeq[i].type == UFTRACE_MSG_REC_START ||
+						     pipeq[i].type == UFTRACE_MSG_REC_END) &&
+						    pipeq[i].k == b.k)
+							inpipe = 1;
+					if (inpipe || !(w->killed || w->finished || (mcount_global_flags & MCOUNT_GFL_FINISH)))
+						continue;
+					shm_remove(b);
+					record_mmap(b);
+				}
 				dump_state("ok");
 			}
 			else if (!strcmp(tok[1], "stop")) {
